@@ -17,6 +17,9 @@ from lib.common import dec_list, dec_str, enc_list, enc_str
 from props.c08 import ATOMS, canon, gen_str
 
 NAMES = ["v", "v1", "v10", "v1_", "v_1", "var", "var1", "var10", "x", "x_9", "_u", "ab", "abc", "a", "a1", "A1B"]
+# names that are keywords / reserved words of the Snowflake or the DuckDB dialect (all of them are accepted by SET on the unchanged tree)
+KEYWORD_NAMES = ["offset", "user", "window", "default", "order", "table", "primary", "group", "end", "desc", "row", "rows", "current_date", "key", "value", "type",
+                 "date", "timestamp", "comment", "schema", "database"]
 UNDEF = ["nope", "zz9", "v100", "va", "5", "1v", "_"]
 MSG = "Session variable '${}' does not exist"
 
@@ -103,7 +106,7 @@ def gen_history(rnd: random.Random, hid: int, nop: bool = False) -> dict:
     nconn = 2
     spec = [dict() for _ in range(nconn)]          # NAME -> python value
     ops = []
-    pool = rnd.sample(NAMES, rnd.randint(3, 6))
+    pool = rnd.sample(NAMES, rnd.randint(3, 6)) + rnd.sample(KEYWORD_NAMES, rnd.randint(0, 2))
     # force prefix pairs / case variants into most pools
     if rnd.random() < 0.7:
         pool += rnd.choice([["v1", "v10"], ["var", "var1", "var10"], ["a", "ab", "abc"], ["v", "v1_"]])
@@ -116,7 +119,12 @@ def gen_history(rnd: random.Random, hid: int, nop: bool = False) -> dict:
         if r < 0.4 or not defined:
             name = rnd.choice(pool)
             k = rnd.random()
-            if k < 0.5:
+            if k < 0.06:
+                # lengths around 255/256/257 (characters and bytes), plain and escape-heavy: there is no size limit in the property
+                n_ = rnd.choice([250, 254, 255, 256, 257, 300])
+                s = rnd.choice(["a" * n_, "é" * (n_ // 2), "'" * (n_ // 2), "\\" * (n_ // 2), ("x'" * n_)[:n_], "ab\n" * (n_ // 3)])
+                written, kind, val = sql_str(s, rnd), "S:" + enc_str(s), s
+            elif k < 0.5:
                 s = clean_str(rnd)
                 written, kind, val = sql_str(s, rnd), "S:" + enc_str(s), s
             elif k < 0.62:
@@ -257,6 +265,10 @@ def gen_history(rnd: random.Random, hid: int, nop: bool = False) -> dict:
                         back = mirror(ops[-2], i, rnd.randrange(2), spec[i])
                         if back is not None:
                             ops.append(back)
+    if hid % 3 == 0:
+        for o in ops:
+            if o["op"] in ("s", "u", "q", "b") and rnd.random() < 0.3:
+                o["thread"] = True
     return {"id": hid, "nconn": nconn, "ops": ops, "nop": nop}
 
 
@@ -427,6 +439,16 @@ def _attach(hists, replies):
                 o["model"] = (body, None)
 
 
+def _in_thread(fn):
+    """run fn in a worker thread and wait for it (the connection is used strictly sequentially)"""
+    import threading
+    box = []
+    t = threading.Thread(target=lambda: box.append(fn()))
+    t.start()
+    t.join()
+    return box[0]
+
+
 def _outcome(fn):
     import snowflake.connector.errors as se
     try:
@@ -480,6 +502,15 @@ def _worker(hists):
                 res = []
                 for o in h["ops"]:
                     cur = curs[o["conn"]][o["cur"]]
+                    if o.get("thread") and o["op"] in ("s", "u", "q", "b"):
+                        # the same connection, used from another thread: it sees and changes the same variables
+                        if o["op"] in ("s", "u"):
+                            res.append({"real": _in_thread(lambda: _outcome(lambda: _select(conns[o["conn"]].cursor(), o["sql"], tuple(o["params"]) if o.get("params") else None)))})
+                        else:
+                            params = tuple(o["params"]) if o["op"] == "b" else None
+                            real = _in_thread(lambda: _outcome(lambda: _select(conns[o["conn"]].cursor(), o["sql"], params)))
+                            res.append(_run_q(o, cur, twin, real))
+                        continue
                     if o["op"] == "e":
                         # one execute_string call; its cursors belong to the statements in order
                         try:
@@ -531,7 +562,7 @@ def _judge(chk, h, res):
     chk.count("histories" + (":nop-instance" if h.get("nop") else ""))
     if prefix_pair:
         chk.count("histories:with-prefix-pair")
-    keep = ("op", "conn", "cur", "name", "kind", "sql", "expect", "err", "lit", "undef_item", "params", "wires", "mirror", "rows", "models", "want")
+    keep = ("op", "conn", "cur", "name", "kind", "sql", "expect", "err", "lit", "undef_item", "params", "wires", "mirror", "rows", "models", "want", "thread")
 
     def slim(x):
         d = {k: x[k] for k in keep if k in x}
@@ -551,7 +582,7 @@ def _judge(chk, h, res):
         if real == ("lost",):
             continue            # cursor of a statement before the failing one of a script: its effect shows in the later statements
         via = f" (statement of execute_string({script['sql']!r}))" if script else ""
-        chk.count("op:" + o["op"] + (":in-script" if script else ""))
+        chk.count("op:" + o["op"] + (":in-script" if script else "") + (":from-worker-thread" if o.get("thread") else ""))
         if o.get("mirror"):
             chk.count("q:mirror-identical-text-other-connection")
         if o["op"] == "m":
